@@ -373,15 +373,15 @@ impl<K: CacheKey + 'static> AsyncCache<K> for MemoryCache<K> {
 
         if let Some(entry) = self.storage.get(key) {
             if entry.is_expired() {
-                // Need to collect info and drop the guard before removing
-                let size_bytes = entry.size_bytes;
+                // Drop the guard before removing
                 drop(entry); // Drop the guard before attempting to remove
 
-                // Remove expired entry
-                if self.storage.remove(key).is_some() {
+                // Remove the entry only if it is still an expired one: a concurrent put may
+                // have replaced it since the guard was dropped. Account for what was removed.
+                if let Some((_, removed)) = self.storage.remove_if(key, |_, e| e.is_expired()) {
                     self.entry_count.fetch_sub(1, Ordering::Relaxed);
                     self.memory_usage
-                        .fetch_sub(size_bytes as u64, Ordering::Relaxed);
+                        .fetch_sub(removed.size_bytes as u64, Ordering::Relaxed);
                 }
 
                 self.metrics.record_get(false, start_time.elapsed());
@@ -444,15 +444,14 @@ impl<K: CacheKey + 'static> AsyncCache<K> for MemoryCache<K> {
     async fn contains(&self, key: &K) -> CacheResult<bool> {
         if let Some(entry) = self.storage.get(key) {
             if entry.is_expired() {
-                // Need to collect info and drop the guard before removing
-                let size_bytes = entry.size_bytes;
+                // Drop the guard before removing
                 drop(entry); // Drop the guard before attempting to remove
 
-                // Clean up expired entry
-                if self.storage.remove(key).is_some() {
+                // Clean up the entry only if it is still an expired one (see get)
+                if let Some((_, removed)) = self.storage.remove_if(key, |_, e| e.is_expired()) {
                     self.entry_count.fetch_sub(1, Ordering::Relaxed);
                     self.memory_usage
-                        .fetch_sub(size_bytes as u64, Ordering::Relaxed);
+                        .fetch_sub(removed.size_bytes as u64, Ordering::Relaxed);
                 }
                 Ok(false)
             } else {
